@@ -25,6 +25,7 @@ THEOREMS = [
     "Aio.C19.b64_align_quartets",
     "Aio.C19.b64_short_chunk_not_aligned",
     "Aio.C19.size_truthful",
+    "Aio.C19.size_truthful_after_header_change",
     "Aio.C19.size_declared_iff_plain",
     "Aio.C19.gather_terminates",
     "Aio.C19.gather_fuel_enough",
@@ -50,7 +51,11 @@ RULE = ("(a) round trips: real MultipartWriter (subtypes mixed/related/form-data
         "read_chunk+decode, BodyPartReaderPayload.write): decoded bytes == written, following part intact; a non-final chunk with >= 4 "
         "base64 characters that is not quartet-aligned has its own signature (the recorded short-read escape only covers < 4); (e) one part "
         "with a header line / header count below, between and above a tightened or raised max_field_size / max_headers and the defaults, "
-        "read at nesting depth 0, 1 and 2: same verdict at every depth, accepted iff within the configured limit. Every case is compared event by event (headers, every chunk/line handed "
+        "read at nesting depth 0, 1 and 2: same verdict at every depth, accepted iff within the configured limit; (f) writer HISTORIES: "
+        "3-12 steps of append part / append nested writer / change, add or delete a header of an already appended part or nested writer "
+        "(set_content_disposition, headers[k]=v, popall) on a tree of depth <= 2, with size queries of the changed writer, an ancestor or the "
+        "root interleaved: at every query declared size == bytes write() produces now, a size is declared iff no part is encoded, and the "
+        "model (size and bytes as pure functions of the current parts) agrees. Every case is compared event by event (headers, every chunk/line handed "
         "out, error class) with the Lean model, and judged by the direct oracle. Distinct by boundary+parts+cuts+script.")
 TRUSTED_BASE = [
     "zlib and binascii.b2a_qp are not modelled: the compressor outputs and quoted-printable encodings are oracle columns of the writer model",
@@ -867,6 +872,8 @@ def run_case(ctx, loop, case, lines):
         one_tecase(ctx, loop, case)
     elif k == "nestlim":
         one_nestlim(ctx, loop, case, lines)
+    elif k == "hist":
+        one_history(ctx, loop, case, lines)
 
 
 # ------------------------------------------------------------------------------ limits are enforced while reading
@@ -1369,12 +1376,172 @@ def check_nestlims(ctx, loop):
     flush_compare(ctx, lines)
 
 
+# ------------------------------------------------------------------------------ writer histories: size is a function of the current parts
+def _hist_writer_at(root, path):
+    w = root
+    for i in path:
+        w = w._parts[i][0]
+    return w
+
+
+def _wz_line(w, loop):
+    """model line for the writer as it is *now*: size and bytes written are pure functions of the current parts (their
+    current header blocks); a nested writer enters as a plain part whose content is what it writes now.  None when the
+    model has no say (a nested writer without a size)."""
+    from aiohttp import MultipartWriter
+    toks = ["wz", hx(w._boundary), "1" if w._is_form_data else "0"]
+    for part, enc, te in w._parts:
+        h = "&".join(f"{hx(k.encode())}={hx(v.encode())}" for k, v in part.headers.items()) or "~"
+        if isinstance(part, MultipartWriter):
+            if part.size is None or enc or te:
+                return None
+            toks.append("|".join([h, hx(write_all(loop, part)), "0", "n", "-", "-", "~"]))
+        else:
+            content = bytes(part._value)
+            cz1, czf, qps = compress_pieces(content, enc or None, te or None)
+            toks.append("|".join([h, hx(content), "1" if enc else "0", {"base64": "b", "quoted-printable": "q"}.get(te, "n"),
+                                  hx(cz1), hx(czf), show_list(qps)]))
+    return " ".join(toks)
+
+
+def one_history(ctx, loop, case, lines):
+    """a writer is built step by step; sizes are queried in between and parts already appended (and nested writers already
+    appended) keep changing.  At every query the declared size must be the number of bytes write() produces *now*, a size
+    must be declared iff no part is encoded, and model and implementation must agree on size and bytes."""
+    from aiohttp import MultipartWriter, payload
+    root = MultipartWriter(case["subtype"], boundary=case["boundary"])
+    last = {}                               # id(writer) -> kind of the last change below it since its last size query
+    def touch(path, kind):
+        for k in range(len(path) + 1):
+            w = _hist_writer_at(root, path[:k])
+            last[id(w)] = kind if k == len(path) else "nested-" + kind.replace("nested-", "")
+    nq = 0
+    for op in case["ops"]:
+        w = _hist_writer_at(root, op[1])
+        if op[0] == "A":
+            hdrs = CIMultiDict([tuple(h) for h in op[3]])
+            if op[4]: hdrs["Content-Encoding"] = op[4]
+            if op[5]: hdrs["Content-Transfer-Encoding"] = op[5]
+            p = payload.BytesPayload(bytes.fromhex(op[2]), headers=hdrs, content_type=op[6])
+            if w._is_form_data:
+                p.set_content_disposition("form-data", name=f"f{len(w._parts)}")
+            w.append_payload(p)
+            touch(op[1], "append")
+        elif op[0] == "N":
+            w.append_payload(MultipartWriter(op[3], boundary=op[2]))
+            touch(op[1], "append")
+        elif op[0] == "H":
+            part = w._parts[op[2]][0]
+            if op[3] == "set":
+                part.headers[op[4]] = op[5]
+            elif op[3] == "del":
+                part.headers.popall(op[4], None)
+            else:
+                part.set_content_disposition(op[4], **op[5])
+            touch(op[1], "header")
+        elif op[0] == "Q":
+            nq += 1
+            try:
+                declared = w.size
+                wire = write_all(loop, w)
+            except (AssertionError, ValueError) as e:
+                ctx.hit("hist:writer-refuses"); return
+            kind = last.pop(id(w), "none")
+            ctx.hit(f"hist:query-after-{kind}:{'sized' if declared is not None else 'unsized'}")
+            plain = all(not e and not t for _, e, t in w._parts) and all(p.size is not None for p, _, _ in w._parts)
+            if declared is not None and declared != len(wire):
+                ctx.violation(f"C19/size/declared-differs-from-written/after-{kind}", case,
+                              f"query {nq} (writer at {op[1]}, last change: {kind}): size={declared} but write() produces {len(wire)} bytes")
+            elif declared is None and plain:
+                ctx.violation("C19/size/undeclared-for-plain-parts", case, f"query {nq}: size is None although no part is encoded")
+            elif declared is not None and not plain:
+                ctx.violation("C19/size/declared-for-encoded-parts", case, f"query {nq}: size={declared} although a part is encoded")
+            line = _wz_line(w, loop)
+            if line is not None:
+                lines.append((line, f"ok {hx(wire)} size={'none' if declared is None else declared}", case,
+                              f"MultipartWriter after a history (last change: {kind}) vs Aio.C19.writeParts/sizeOf"))
+    return root
+
+
+def gen_history(rng):
+    boundary = gen_boundary(rng)
+    subtype = rng.choice(["mixed", "mixed", "related", "form-data"])
+    ops = []
+    tree = {(): []}                         # path -> list of "B" / "N"
+    def writers():
+        return list(tree.keys())
+    for _ in range(rng.randint(3, 12)):
+        path = rng.choice(writers())
+        kids = tree[path]
+        r = rng.random()
+        form = subtype == "form-data" and path == ()
+        if r < 0.35 or not kids:
+            if not form and len(path) < 2 and rng.random() < 0.3:
+                ib = gen_boundary(rng)[:60] + "n"
+                ops.append(["N", list(path), ib, rng.choice(["mixed", "related"])])
+                tree[path + (len(kids),)] = []
+                kids.append("N")
+            else:
+                enc = te = None
+                if not form and rng.random() < 0.2:
+                    enc, te = rng.choice([("gzip", None), (None, "base64"), ("deflate", "base64"), (None, "quoted-printable")])
+                n = rng.choice([0, 1, 5, 100, 300])
+                content = gen_content(rng, boundary, n, ascii_only=(te == "quoted-printable"))
+                if te == "quoted-printable":
+                    content = qp_text(rng, content)
+                hd = [["X-Note", rng.choice(["v", "a b", "x" * 40])]] if rng.random() < 0.3 else []
+                ops.append(["A", list(path), content.hex(), hd, enc, te, rng.choice(["application/octet-stream", "text/plain"])])
+                kids.append("B")
+        else:
+            idx = rng.randrange(len(kids))
+            k = rng.random()
+            if k < 0.4:
+                params = {"name": rng.choice(["n", "field", "a b"])}
+                if rng.random() < 0.6:
+                    params["filename"] = rng.choice(["f.bin", "report-2024.bin", "x" * 30, "é.txt"])
+                ops.append(["H", list(path), idx, "disp", "form-data" if form else rng.choice(["attachment", "inline"]), params])
+            elif k < 0.8:
+                ops.append(["H", list(path), idx, "set", rng.choice(["X-Custom", "X-Trace", "Content-Location"]),
+                            rng.choice(["", "v", "w" * rng.randint(1, 200), "tab\there"])])
+            elif k < 0.9 and kids[idx] == "B" and not form:
+                ops.append(["H", list(path), idx, "set", "Content-Type", rng.choice(["text/html", "application/x-long-type-name"])])
+            else:
+                ops.append(["H", list(path), idx, "del", rng.choice(["X-Custom", "X-Note", "X-Trace"])])
+        # query: the changed writer, an ancestor, or the root
+        if rng.random() < 0.75:
+            qp = list(path[:rng.randint(0, len(path))])
+            ops.append(["Q", qp])
+    ops.append(["Q", []])
+    return {"kind": "hist", "boundary": boundary, "subtype": subtype, "ops": ops}
+
+
+def check_histories(ctx, loop):
+    rng = ctx.rng
+    lines = []
+    # the two documented idioms first (fixed): header of an appended part changed after a size query; nested writer grown after the outer was sized
+    fixed = [
+        {"kind": "hist", "boundary": "B", "subtype": "mixed", "ops": [
+            ["A", [], (b"x" * 100).hex(), [], None, None, "application/octet-stream"], ["Q", []],
+            ["H", [], 0, "disp", "attachment", {"filename": "report-2024.bin"}], ["Q", []]]},
+        {"kind": "hist", "boundary": "B", "subtype": "mixed", "ops": [
+            ["N", [], "inner", "mixed"], ["A", [0], b"one".hex(), [], None, None, "text/plain"], ["Q", []],
+            ["A", [0], b"two-more".hex(), [], None, None, "text/plain"], ["Q", []],
+            ["H", [0], 0, "set", "X-Custom", "w" * 50], ["Q", []], ["Q", [0]]]},
+    ]
+    for i in range(len(fixed) + (150 if ctx.quick else 3000)):
+        case = fixed[i] if i < len(fixed) else gen_history(rng)
+        one_history(ctx, loop, case, lines)
+        ctx.case(("hist", json.dumps(case, sort_keys=True)),
+                 sample={"history": [o[0] + (":" + o[3] if o[0] == "H" else "") for o in case["ops"]]} if i % 53 == 0 else None)
+    flush_compare(ctx, lines)
+
+
 def check(ctx):
     import time
     loop = asyncio.new_event_loop()
     asyncio.set_event_loop(loop)
     try:
-        for f in (check_probes, check_mechanisms, check_roundtrips, check_mutations, check_limits, check_bombs, check_tecases, check_nestlims, check_posts):
+        for f in (check_probes, check_mechanisms, check_roundtrips, check_mutations, check_limits, check_bombs, check_tecases, check_nestlims, check_histories, check_posts):
             t = time.time()
             f(ctx, loop)
             ctx.extra.setdefault("section_seconds", {})[f.__name__] = round(time.time() - t, 1)
